@@ -31,7 +31,7 @@ RULE = ("seeded random graphs: grid with one grid meter or 1-4 arbitrary success
         "and >=1 meter")
 REQUIRED_BUCKETS = ["no-grid-meter", "single-grid-meter", "several-grid-successors", "nested-meters",
                     "device-directly-under-grid", "mixed-meter", "dedicated-meter", "load-only-meter", "has-chp",
-                    "has-battery", "has-pv", "has-ev", "fallback-formula-evaluated"]
+                    "has-battery", "has-pv", "has-ev", "fallback-formula-evaluated", "battery-behind-several-inverters"]
 REQUIRED_COUNTERS = ["formulas_evaluated", "balance_checks", "graphs_valid"]
 ASSUMPTIONS = ["formula steps are evaluated synchronously on one assignment (streaming is covered by C05/C06)"]
 
@@ -56,7 +56,16 @@ def gen(rng: Any, tier: str, i: int) -> Any:
         return nid[0]
 
     def add_device(parent: int, kind: str) -> None:
-        if kind == "bat":
+        if kind == "bat" and rng.random() < 0.25:
+            # one battery (or two) served by two inverters
+            invs = [new("batinv"), new("batinv")]
+            for inv in invs:
+                edges.append([parent, inv])
+            for _ in range(rng.randint(1, 2)):
+                b = new("bat")
+                for inv in invs:
+                    edges.append([inv, b])
+        elif kind == "bat":
             inv = new("batinv")
             edges.append([parent, inv])
             for _ in range(rng.randint(1, 2)):
@@ -228,6 +237,8 @@ def check(case: dict[str, Any], rec: Any) -> None:
                 rec.bucket("dedicated-meter")
             elif len(ck) > 1:
                 rec.bucket("mixed-meter")
+    if any(k == "bat" and len(parents[n]) > 1 for n, k in kinds.items()):
+        rec.bucket("battery-behind-several-inverters")
     present = set(kinds.values())
     for k, name in (("chp", "has-chp"), ("batinv", "has-battery"), ("pvinv", "has-pv"), ("ev", "has-ev")):
         if k in present:
